@@ -270,7 +270,13 @@ class C12(Check):
                     results[name] = enc(json.dumps(W.make_result_doc(kind, [])).encode())
                     names.insert(rng.randrange(len(names) + 1), name)
                 rng.shuffle(names)
-            opts += [W.RESULT_OPTION[kind], ",".join(f"<R>/{n}" for n in names)]
+            if kind.startswith("sonar") and len(names) >= 2 and rng.random() < 0.6:
+                # Sonar result files may arrive through both options in one invocation (documents keep their own key)
+                cut = rng.randrange(1, len(names))
+                opts += ["--sonar-issues-json", ",".join(f"<R>/{n}" for n in names[:cut]),
+                         "--sonar-hotspots-json", ",".join(f"<R>/{n}" for n in names[cut:])]
+            else:
+                opts += [W.RESULT_OPTION[kind], ",".join(f"<R>/{n}" for n in names)]
         base_argv = ["<T>", "--output", "<O>/report.codetf", "--codemod-include", ",".join(exp["include"])]
         if exp.get("workers"):
             base_argv += ["--max-workers", str(exp["workers"])]
